@@ -134,12 +134,14 @@ def user(g, lib):
     return {k: refval.canon(v) for k, v in g.items() if k not in lib}
 
 
-def run_real(model, root, files, faults, api, prefix):
+def run_real(model, root, files, faults, api, prefix, debug=False):
     bare_script, lib, rt_err, p_err, url_file_relative = api
     fs = VirtualFS(files, faults=faults, norm=norm_url)
     logs = []
     g = {'cnt': 0}
     o = {'globals': g, 'logFn': logs.append, 'fetchFn': fs, 'systemPrefix': prefix, 'maxStatements': 100000}
+    if debug:
+        o['debug'] = True
     if root is not None:
         o['urlFn'] = functools.partial(url_file_relative, root)
     try:
@@ -192,6 +194,17 @@ def check_tree(root, main, files, acc, api, prefix, only_fault=None):
         acc.count('runs')
         acc.cover('outcomes', real['r'][0])
         acc.cover('fault_kinds', label.split('@')[0] if faults else 'fault-free')
+        if label == 'none' or sum(map(ord, label)) % 5 == 0:
+            # debug mode lints every included script and reports through logFn; it changes nothing else
+            dbg = run_real(model, root, files, faults, api, prefix, debug=True)
+            if dbg is not None:
+                dbg['logs'] = [l for l in dbg['logs'] if not l.startswith('BareScript:') and not l.startswith('    ')]
+                acc.count('debug_mode_runs')
+                diff = [k for k in ('r', 'fetches', 'logs', 'globals') if dbg[k] != real[k]]
+                if diff:
+                    acc.violation('debug-mode-changes-include-run:' + ','.join(diff), f'fault={label} root={root!r}: ' + '; '.join(f'{k}: debug={dbg[k]!r:.300} plain={real[k]!r:.300}' for k in diff)
+                                  + f'\nmain:\n{main}', dict(base_case, fault=label))
+                    return
         bad = [k for k in ('r', 'fetches', 'logs', 'globals') if real[k] != ref[k]]
         if bad:
             acc.violation('include-run-differs:' + ','.join(bad), f'fault={label} root={root!r}: ' + '; '.join(f'{k}: real={real[k]!r:.300} ref={ref[k]!r:.300}' for k in bad)
